@@ -105,8 +105,9 @@ def h_xfer(ex, L, kind='p2p', shape='single', L2=0, kind2='p2p', reent=None, win
     elif reent == 'one':
         w.reentrant = ex.fresh_int('reentrant_frame', 0, 2 * npk + 6)
     a_, b_, c_ = addrs if addrs else (A, B, C)
+    ecu0 = 0 not in (a_, b_, c_)
     sa = Stack(w, 'A', a_, dll=dll, max_cmdt_packets=wa, **kw)
-    sb = Stack(w, 'B', b_, dll=dll, max_cmdt_packets=wb, **kw)
+    sb = Stack(w, 'B', b_, dll=dll, max_cmdt_packets=wb, ecu0=ecu0, **kw)
     stacks = [sa, sb]
     if bystander:
         sc = Stack(w, 'C', c_, dll=dll, ecu_listener=True, max_cmdt_packets=1)
@@ -125,6 +126,9 @@ def h_xfer(ex, L, kind='p2p', shape='single', L2=0, kind2='p2p', reent=None, win
     w.run(until=w.now + horizon)
     for s in stacks:
         check_listener(ex, s, s.rx, by_addr, msgs, 'ca', dll)
+    if ecu0:
+        # the receiving stack also has an ECU-level listener bound to address 0: it gets the broadcasts only
+        check_listener(ex, sb, sb.rx_ecu0, by_addr, [m for m in msgs if m.broadcast], 'ecu0', dll)
     if bystander:
         # an unfiltered ECU-level listener receives the broadcasts only
         check_listener(ex, sc, sc.rx_ecu, by_addr, [m for m in msgs if m.broadcast], 'ecu', dll)
